@@ -40,7 +40,7 @@ TIERS = {
                                   "c17.stochastic_time_grid", "c17.shared_control_variates", "c17.asian_run",
                                   "c17.kth_name_default_run", "c17.shared_control_variates_multilevel",
                                   "c17.run_interrupted_then_session_continues"]},
-    "thorough": {"worlds": 200000, "wall": 3300, "shrink_budget": 150,
+    "thorough": {"worlds": 200000, "wall": 2900, "shrink_budget": 150,
                  "required_probes": ["c17.run_completed", "c17.barrier_event_mixed", "c17.reuse_log_then_identity",
                                      "c17.multilevel_run", "c17.pool_run", "c17.default_happened",
                                      "c17.fine_coarse_events_differ"]},
@@ -91,6 +91,14 @@ def generate(seed, tier="quick"):
         rep = "LOG" if kind in ("cds", "ntd", "cdsk") else ("IDENTITY" if kind == "rates" else r.choice(["LOG", "IDENTITY"]))
         runs.append({"engine": eng, "rep": rep, "nproc": r.choice([1, 1, 2, 4]), "n": r.choice([2, 3, 5, 9, 20]),
                      "max_level": r.choice([1, 2])})
+    if nruns >= 2 and kind in ("call", "put", "forward", "digital_call", "digital_put", "callspread", "butterfly") and r.random() < 0.35:
+        # a SECOND product built on the SAME underlying object (as a book of options on one underlying is): some runs of
+        # the session price the sibling instead, the first of them possibly in the identity representation after a
+        # logarithmic run of the main product
+        spec["sibling"] = r.choice(["put", "forward", "call"])
+        for x in runs:
+            x["which"] = r.choice(["P", "Q"])
+        runs[0]["which"], runs[-1]["which"] = "P", "Q"
     if nruns >= 2 and r.random() < 0.12:
         # fault: a run of the session (not the last) is interrupted - the simulation of one of its samples fails - and
         # the session goes on with the same product (and control) objects
@@ -273,6 +281,15 @@ def execute(wd, sc):
 
         product.payoff_underlying = Spot()
     pristine = copy.deepcopy(product)
+    sibling, pristine_sibling = None, None
+    if spec.get("sibling"):
+        from rpylib.product.payoff import Vanilla as _V, PayoffType as _PT, Forward as _F2
+        from rpylib.product.product import Product as _P2
+
+        k2 = round(0.97 * sc["x0"], 4)
+        pay2 = {"put": _V(strike=k2, payoff_type=_PT.PUT), "call": _V(strike=k2, payoff_type=_PT.CALL), "forward": _F2(strike=k2)}[spec["sibling"]]
+        sibling = _P2(payoff_underlying=product.payoff_underlying, payoff=pay2, maturity=T, notional=spec["notional"])  # shared underlying
+        pristine_sibling = copy.deepcopy(sibling)
     cv_shared, cv_pristine = None, None
     if sc.get("control"):
         # ONE ControlVariates object (and one control product) shared by every run of the session
@@ -309,6 +326,10 @@ def execute(wd, sc):
         need = n if run["engine"] == "standard" else n * (1 + 2 * run["max_level"])
         wd.stub_paths = _paths(sc, need + 4, m, log, rng)
         wd.stub_serial = 0
+        use_sibling = sibling is not None and run.get("which") == "Q"
+        prod_run, pristine_run = (sibling, pristine_sibling) if use_sibling else (product, pristine)
+        if use_sibling:
+            wd.probes["c17.sibling_product_on_the_same_underlying_priced"] += 1
         wd.stub_fail_at = run.get("fail_at")
         s0 = len(wd.samples)
         wd.run_index = ri
@@ -320,14 +341,14 @@ def execute(wd, sc):
                 cfg = ConfigurationStandard(mc_paths=n, nb_of_processes=run["nproc"], control_variates=cv_shared)
                 if cv_shared is not None:
                     wd.probes["c17.shared_control_variates"] += 1
-                stats = StdEngine(cfg, proc).price(product)
+                stats = StdEngine(cfg, proc).price(prod_run)
             else:
                 cp = stubs.ScriptedPathCoupling(base, times, log, df_value=df, names=spec.get("names"), drift=drift)
                 cfg = ConfigurationMultiLevel(initial_level=0, maximum_level=run["max_level"], initial_mc_paths=n,
                                               nb_of_processes=run["nproc"], control_variates=cv_shared)
                 if cv_shared is not None:
                     wd.probes["c17.shared_control_variates_multilevel"] += 1
-                stats = MLEngine(cfg, cp).price_with_constant_mc_paths_and_level(product)
+                stats = MLEngine(cfg, cp).price_with_constant_mc_paths_and_level(prod_run)
                 wd.probes["c17.multilevel_run"] += 1
         except HarnessError:
             raise
@@ -344,7 +365,7 @@ def execute(wd, sc):
             j0 = np.asarray(j0, dtype=float)
             p0 = base + drift * pt0 + np.asarray(d0, dtype=float) + j0
             try:
-                _evaluate(pristine, run["rep"], pt0, p0, j0)
+                _evaluate(pristine_run, run["rep"], pt0, p0, j0)
             except Exception as e2:
                 add(f"C17.value|a product built from the library's own payoff and underlying has no value on a valid path: evaluation raises|{type(e2).__name__}|underlying={type(pristine.payoff_underlying).__name__}|rep={run['rep']}",
                     {"run": ri, "error": str(e2)[:200], "times": pt0.tolist(), "path": np.asarray(p0).tolist()})
@@ -427,7 +448,7 @@ def execute(wd, sc):
                     if sc.get("jitter") and not np.array_equal(ptimes, times):
                         wd.probes["c17.stochastic_time_grid"] += 1
                     path = base + drift * ptimes + d + j
-                    val, pobj = _evaluate(pristine, run["rep"], ptimes, path, j)
+                    val, pobj = _evaluate(pristine_run, run["rep"], ptimes, path, j)
                     exp = float(np.ravel(val)[0]) * df
                     got = float(store[i])
                     ev = getattr(pobj.payoff, "barrier_event", None)
@@ -456,7 +477,7 @@ def execute(wd, sc):
                                     mech = "knock-flag-set-by-another-path(or the coarse path of the pair)"
                         if mech == "other" and not log:
                             with np.errstate(all="ignore"):
-                                a_val, _ = _evaluate(pristine, "LOG", ptimes, path, j)
+                                a_val, _ = _evaluate(pristine_run, "LOG", ptimes, path, j)
                             if np.isclose(got, float(a_val) * df, rtol=1e-9) or (not np.isfinite(got)) or abs(got) > 1e30:
                                 mech = "logarithmic-representation-kept-from-an-earlier-run"
                         anylog = any(r_["rep"] == "LOG" for r_ in sc["runs"][:ri])
@@ -465,7 +486,7 @@ def execute(wd, sc):
                             {"run": ri, "level": lvl, "index": i, "stored": got, "fresh_copy": exp, "barrier_event_fresh": ev,
                              "payoff": cls, "rep": run["rep"], "path": path.tolist()})
                     # ---- monitors (pure identities, on the paths produced) -----------------------------
-                    _monitors(add, sc, pristine, run["rep"], ptimes, path, j, base, log)
+                    _monitors(add, sc, pristine_run, run["rep"], ptimes, path, j, base, log)
                 if len(ev_pair) == 2 and ev_pair[0] is not None and ev_pair[0] != ev_pair[1]:
                     wd.probes["c17.fine_coarse_events_differ"] += 1
         if events and any(events) and not all(events):
